@@ -600,6 +600,10 @@ class Dumper:
 # canonical renumbering (applied to the Python dump and to the model's answer alike)
 # ---------------------------------------------------------------------------
 
+def dump_differs(dumper, schema, raw):
+    return dumper.dump([schema]) != raw
+
+
 def canon(world):
     """Renumber addresses by deterministic traversal from the schemas (in order); drop unreachable objects."""
     objs = world["objs"]
